@@ -8,6 +8,9 @@ Layers, all compared with the Lean model (`lean/PydraModel/Batch/Model.lean`, dr
               every scheduler command line, requeues  vs  `slurmRun`  vs  the table as the harness reads the property
   submission  `Submitter(worker="slurm")(task)` for a plain task and for a one-node workflow, the fake sbatch really
               running the batch script (or not: lost result)  vs  `submitPlain / submitNode`  vs  the property
+  load_and_run  the batch script run by the fake sbatch over a corrupted `_job.pklz`, with a raise injected in Job.run
+              before anything is saved, and with a failing task body: what result / error files are left, which exception
+              the script dies of  vs  `loadAndRun`  vs  the three outcomes asked for (regressions of D72 and D72s)
   SGE         one submission through `SgeWorker` (known finding D18sge: it cannot run)
 """
 
@@ -40,7 +43,11 @@ META = {
     "workflow node the same holds unless success is reported without a result (C28_final_node_partial; witness "
     "C28_witness_lost = known finding D24; C28_witness_norequeue).  User options: user tokens first and verbatim, each "
     "default appended exactly when the user's string holds none, the user's error file is the one read "
-    "(C28_sbatch_args, C28_option_detected, C28_error_honoured, C28_witness_user_error).  SGE: every submission raises "
+    "(C28_sbatch_args, C28_option_detected, C28_error_honoured, C28_witness_user_error).  load_and_run: unloadable pickle (given a Path) -> errored result + error "
+    "file + loader's exception; job raises without result -> errored result written; result saved by the job kept "
+    "(C28_load_and_run, C28_load_and_run_leaves_result, kwargs of Result(...) regenerated: C28_load_and_run_pinned; D72 "
+    "regression C28_witness_D72; the batch scripts pass a str, converted to a Path since repair D72s: C28_witness_D72s, "
+    "C28_batch_script_path_pinned).  SGE: every submission raises "
     "TypeError before any qsub (C28_sge_crash, from regenerated facts C28_sge_source_pinned; known finding D18sge).  The "
     "regex strings, state lists, tests and command tuples are regenerated from the source and pinned (C28_regex_pinned, "
     "C28_logic_pinned).",
@@ -77,6 +84,12 @@ OBLIGATIONS = [
         "C28_option_detected",
         "C28_error_honoured",
         "C28_witness_user_error",
+        "C28_load_and_run_pinned",
+        "C28_load_and_run",
+        "C28_load_and_run_leaves_result",
+        "C28_witness_D72",
+        "C28_witness_D72s",
+        "C28_batch_script_path_pinned",
         "C28_sge_source_pinned",
         "C28_sge_crash",
     )
@@ -303,6 +316,57 @@ SUBMISSION_CASES = [
 ]
 
 
+# what the batch script's interpreter (`load_and_run`) must leave behind when the job cannot be loaded or fails:
+# (task, corrupt the job pickle?, raise injected inside Job.run before anything is saved?, class of the original exception)
+LOAD_AND_RUN_CASES = [
+    ("inc", True, None, "UnpicklingError"),  # unloadable pickle -> errored result + error file next to it, loader's exception re-raised
+    ("inc", False, "run.populated", "VerifInjected"),  # job raises, no result yet -> errored result written
+    ("boom", False, None, "ValueError"),  # job raises after saving its own errored result -> kept
+]
+
+
+def gen_lr_case(rng, cid: int, workdir: str, spec) -> dict:
+    task, corrupt, inject, orig = spec
+    c = gen_submission_case(rng, cid, workdir, (task, ["failed"], True, "failed"))
+    c["lr"] = {"corrupt": corrupt, "inject": inject, "orig": orig}
+    c["inject"] = inject
+    if corrupt:
+        c["responses"][0]["corrupt"] = True
+    return c
+
+
+def judge_load_and_run(ctx, cases: list[dict], results: dict):
+    cases = [c for c in cases if c.get("lr")]
+    q = []
+    for c in cases:
+        lr = c["lr"]
+        body_raises = c["task"] == "boom" and not lr["inject"]
+        q.append({"op": "load_and_run", "pickle_loads": not lr["corrupt"], "parent_exists": True, "run_raises": bool(lr["inject"]) or c["task"] == "boom", "result_by_run": body_raises, "error_by_run": body_raises})
+    ans = ctx.driver("Batch", q)
+    for i, c in enumerate(cases):
+        o = results.get(c["id"], {})
+        lr = c["lr"]
+        ctx.count("load_and_run:" + ("corrupt-pickle" if lr["corrupt"] else ("raise-before-save" if lr["inject"] else "body-raises")))
+        if "results" not in o:
+            ctx.judge(slim(c), {"error": o.get("child_error"), "hang": o.get("hang")}, None, False, what="load_and_run scenario did not run")
+            continue
+        where = (lambda d: d.startswith("slurm_scripts/")) if lr["corrupt"] else (lambda d: not d.startswith("slurm_scripts/"))
+        errored = any(v.get("errored") for d, v in o["results"].items() if where(d))
+        errfile = any(where(d) for d in o["error_files"])
+        exc = o.get("script_exc")
+        cat = "original" if exc == lr["orig"] else (exc if exc in ("TypeError", "AttributeError") else f"other:{exc}")
+        impl = {"errored_result": errored, "error_file": errfile, "exc": cat}
+        model = None
+        if ans is not None and "exc" in ans[i]:
+            a = ans[i]
+            body_raises = c["task"] == "boom" and not lr["inject"]
+            model = {"errored_result": a["errored_result_written"] or (a["result_kept"] and body_raises), "error_file": a["error_file_written"] or body_raises, "exc": a["exc"]}
+        ok = errored and errfile and cat == "original" and (o.get("script_rc") or 0) != 0
+        if lr["corrupt"]:  # the scheduler's FAILED is then reported with the loader's own error line
+            ok = ok and o.get("final", {}).get("kind") == "raised" and "UnpicklingError" in o.get("final", {}).get("msg", "")
+        ctx.judge({**slim(c), "scenario": "load_and_run"}, impl, model, ok, nontrivial=True, what="what load_and_run leaves behind")
+
+
 def gen_submission_case(rng, cid: int, workdir: str, spec) -> dict:
     task, hist, run, expect = spec
     ua = B.gen_user_args(rng, f"{workdir}/u", None, 0.0)
@@ -433,16 +497,21 @@ def _correspondence(ctx, scratch, runner):
     judge_worker(ctx, cases, res)
     # ---- submission level
     subs = []
-    specs = SUBMISSION_CASES if not ctx.quick else SUBMISSION_CASES[:5]
+    specs = SUBMISSION_CASES if not ctx.quick else [SUBMISSION_CASES[0], SUBMISSION_CASES[2], SUBMISSION_CASES[3], SUBMISSION_CASES[4]]
     for _ in range(ctx.pick(1, 6)):
         for spec in specs:
             cid += 1
             subs.append(gen_submission_case(ctx.rng, cid, wd(cid), spec))
+    for _ in range(ctx.pick(1, 3)):
+        for spec in LOAD_AND_RUN_CASES:
+            cid += 1
+            subs.append(gen_lr_case(ctx.rng, cid, wd(cid), spec))
     # ---- SGE (same child as the submissions)
     cid += 1
     sge = {"id": cid, "level": "submission", "workdir": wd(cid), "worker": "sge", "task": "inc", "user": "", "responses": [{"rc": 0, "out": "Your job-array 77.1-1:1 has been submitted\n", "err": ""}]}
     res = runner.run_all(subs + [sge])
     judge_submission(ctx, subs, res)
+    judge_load_and_run(ctx, subs, res)
     o = res.get(cid, {})
     f = o.get("final", {})
     sge_crash = f.get("kind") == "raised" and f.get("cls") == "TypeError" and not o.get("calls")
